@@ -11,6 +11,31 @@ CHECKS = {
  "C02": dict(engine="hypothesis-given", technique="generated plasma states / tables / windows; oracles: total on covering window, bin-average by grid nesting, in-window fraction vs aligned reference grid, absolute erf / hyp2f1 bins from documented formulas, pi+sigma=no, linearity",
              text="For each of the 7 line-shape classes, generated states (T<=0, flow, B at a chosen angle, un-normalised view), tables and spectral windows (containing / cutting / beside / one bin / fine). Decides normalisation (1e-9 R for Gaussian-built shapes), bin averaging (nesting), in-window fraction, polarisation split and stated ratios, zero-width. Stark is decided to 3e-4 R with the default integrator on bins <= FWHM/2 and to 2e-6 R with a tight integrator; coarser Stark bins are a recorded known finding.",
              ref="DESIGN.md section 3, C02"),
+ "C01": dict(engine="hypothesis-stateful", technique="stateful differential testing: live scene mutated through public setters vs scene rebuilt from the final configuration record (three RuleBasedStateMachines)",
+             text="Three state machines (plasma with passive models; plasma + beam with attenuator and beam models; plasma + laser with Thomson scattering) apply every public mutator to a live raysect scene and to a JSON record, with an observation (traced sight lines, beam density/direction samples, z_effective/ion_density) after two thirds of the mutators; each observation is compared with a scene built from scratch from the record by one canonical builder (1e-9, same exception type). Decides order/history independence for the generated histories (<= 25 steps).",
+             ref="DESIGN.md section 3, C01"),
+ "C07": dict(engine="enumeration+hypothesis-given", technique="generated repositories written through update_*; oracle: table x independently computed conversion at every grid point, range / missing-data policy matrix over all accessors and flag combinations",
+             text="Every OpenADAS accessor is exercised on generated repository content for all 8 flag combinations, elements and isotopes, present and missing keys: grid-point reproduction after the documented unit conversion (1e-9), non-negativity, zeros for non-positive arguments, raise/finite outside the tabulated range, isotope = element rates, RuntimeError or everywhere-zero null rates for missing data. A deterministic accessor x flag matrix runs in every tier.",
+             ref="DESIGN.md section 3, C07"),
+ "C08": dict(engine="hypothesis-given", technique="independent ADF11/12/15/21/22 writers -> parser -> expected tables after documented conversions; install_* -> repository round trip; rejection of mismatching / incomplete files",
+             text="Files are produced by independent writers of the published ADF formats (values on the printed-precision lattice, any grid sizes and block counts, all header styles), parsed, compared element by element with the generated numbers after the documented conversions and axis conventions (1e-12), installed into a temporary repository and read back; mismatching ADF11 headers and absent blocks must raise; nothing may be written outside the repository path.",
+             note="Trusted base as for the other checks, plus: the writers encode the published ADAS FORMAT statements from memory (no real ADAS file is available offline); header layouts of ADF12/21/22 and the ADF15 comment index are corroborated by, not independent of, the parser sources. What is independent: values per line, array boundaries, section and flattening order, the numbers and conversions.",
+             ref="DESIGN.md section 3, C08"),
+ "C09": dict(engine="hypothesis-given", technique="generated analytic rate sets; oracle: exact two-term recursion in extended precision, conservation identities, representation-independence differential",
+             text="Fractional abundances, from_elementdensity, match_plasma_neutrality, interpolator and equilibrium-mapped entry points are compared with the exact steady-state recursion (log-space longdouble) within an a-priori bound 20 eps cond2(A), with particle/charge conservation, non-negativity and equality across scalar / ndarray / Function1D / Function2D inputs. Ill-conditioned rate sets run in a forked child under a time limit and are a recorded known finding.",
+             ref="DESIGN.md section 3, C09"),
+ "C12": dict(engine="hypothesis-given", technique="real and synthetic (analytic psi) equilibria; oracle: composition with psi_normalised, own point-in-polygon, analytic flux within a derived interpolation bound, orthonormal-basis identities, own rotation matrices",
+             text="map2d/map3d/map_vector2d/3d, psi_normalised >= 0, the toroidal/poloidal/normal basis and the magnetic field are checked on the bundled example and Generomak equilibria (both signs via psi -> s psi + c) and on synthetic ellipse / Solov'ev grids against analytic values within a derived third-order interpolation bound; algebraic identities at 1e-10.",
+             ref="DESIGN.md section 3, C12"),
+ "C15": dict(engine="hypothesis-stateful", technique="stateful model-based testing of every observer-group class against a list-of-dicts reference model; (class x attribute) coverage enforced",
+             text="A RuleBasedStateMachine per group class (7 classes) applies add / assign scalar / assign sequence (right and wrong length) / rename / replace / index / observe and compares every member attribute, group getter, parentage, lookup and observe count with the model after every rule; every (class, attribute) pair must be exercised in each run.",
+             ref="DESIGN.md section 3, C15"),
+ "C16": dict(engine="hypothesis-stateful+hypothesis-given", technique="fresh-instrument differential after generated setter histories; inequality checks; exact rational integration oracle for calibration",
+             text="Spectrometer, CzernyTurnerSpectrometer and Polychromator: after any generated setter history every cached setting, pipeline class/kwargs and created pipeline equals that of an instrument constructed directly with the final parameters; range-covers-pixels and bin-width inequalities; calibrate() conserves the exact integral of the raysect spectrum over each pixel, with additivity, constant and linear relations.",
+             ref="DESIGN.md section 3, C16"),
+ "C17": dict(engine="hypothesis-given", technique="exact rational shoelace/centroid oracle over all vertex orders; seeded sampling with non-asymptotic Bernstein bounds against exact area fractions and moments",
+             text="Area, centroid and Pappus volume of generated simple polygons are compared with exact rational arithmetic for all 2n vertex orders; grid total volume = sum; emissivity_from_function: constants exact, sample points inside, hit fractions over an independent triangulation and first/second moments within 6-sigma-equivalent Bernstein bounds (RNG seeded from the case).",
+             ref="DESIGN.md section 3, C17"),
  "C03": dict(engine="hypothesis-given", technique="generated compositions and analytic mock rates; oracle: documented formulas re-evaluated in plain Python (scipy.quad for bremsstrahlung), exact guards, metamorphic linearity",
              text="Passive models (ExcitationLine, RecombinationLine, ThermalCXLine, TotalRadiatedPower, Bremsstrahlung) are called directly on real Plasma/Species objects with parameterised mock rates that depend on every argument and key. Window totals must equal the documented expressions (1e-9; bremsstrahlung per bin 1e-4 vs scipy.quad of Hutchinson 5.3.40), non-positive dependencies give exactly nothing, output is non-negative and linear in each density.",
              ref="DESIGN.md section 3, C03"),
